@@ -3,15 +3,17 @@ Theorems: coq/Props/C13.v (general, for arbitrary ascending scales, + the built-
 the source).  Correspondence: Key.get / __contains__ / nearest_note / tonal patterns / note-name functions
 of the repository against the Coq model, exhaustively on the property's finite domain, on random user
 scales, and in sessions (several keys per process that share names / tonics / scale objects, built, re-configured
-and queried in varying order; tonal patterns over key progressions under melodies with rests).
-Oracle: independent pitch-class-set check of every implementation result (step i against key i)."""
+and queried in varying order; tonal patterns over key progressions under melodies with rests; Key and Scale OBJECTS
+that are held by live pattern objects and re-tuned IN PLACE between their nextn() calls; user scales of other octave
+sizes reached through the NAME they are registered under; copies of scales and keys - model Tonal/Held.v).
+Oracle: independent pitch-class-set check of every implementation result (step i against key i as it is at step i)."""
 from common import *
 
 PROP = "C13"
 META = {
  "engine": "F-pure-functions",
- "text": "Coq theorems (Props/C13.v, closed under the global context) prove for ARBITRARY ascending scales, octave sizes, tonics and all integer degrees/notes: the degree formula, strict monotonicity, degree-in-key, pitch-class invariance of membership, and that nearest_note is in key with no in-key note strictly closer; the built-in scale table is regenerated from the source on every run and proved to lie in that domain; note-name/MIDI-number round trips are proved by complete enumeration. The model is tied to /repo by a correspondence check run on every invocation: Key.get/__contains__/nearest_note, PFilterByKey/PNearestNoteInKey/PDegree and the util name functions are evaluated on the property's complete finite domain (all named scales x 12 tonics x notes 0..127 x degrees -64..64) plus random user scales, and compared inside Coq (vm_compute) with the model; an independent pitch-class-set oracle judges every implementation result and supplies the failing input. Further theorems (C13_progression_aligned, C13_filter/snap/degree/rest_progression) cover the tonal patterns when the KEY is itself a pattern: every step consumes one note and one key, rests included, so output i is in / nearest in / the degree of key i; C13_session_frame/_reconfigure say that the definition of a key is the last one given to that key, whatever other keys exist (a scale's name is not part of the model). The check runs sessions - one process each - in which several keys that agree in name, tonic, octave size or scale object but differ in semitones are built, re-configured and queried in varying order, every key again after all others were built and queried, and the tonal patterns run over PSequence-s of those keys under melodies with rests; every result is judged against the key's own semitones (step i against key i) and compared with the model evaluated on the definition the model derives from the session.",
- "note": "Trusted: Coq kernel + VM; gen_tables.py; the Python harness; that Python int //, % are floor division (Z.div/Z.modulo). Modelled not verified: nothing float; Key built from names uses Scale.byname/note_name_to_midi_note (covered by the correspondence only for built-in names). nearest_note is compared by distance and membership, so a different tie-break is not an alarm. Compared with the model only, not judged by the oracle: Key.semitones, the number of values a tonal pattern yields when one stream ends first, keys after attribute assignment (key.tonic = / key.scale =). PSequence(keys, r) yielding keys*r is taken from its documentation.",
+ "text": "Coq theorems (Props/C13.v, closed under the global context) prove for ARBITRARY ascending scales, octave sizes, tonics and all integer degrees/notes: the degree formula, strict monotonicity, degree-in-key, pitch-class invariance of membership, and that nearest_note is in key with no in-key note strictly closer; the built-in scale table is regenerated from the source on every run and proved to lie in that domain; note-name/MIDI-number round trips are proved by complete enumeration. The model is tied to /repo by a correspondence check run on every invocation: Key.get/__contains__/nearest_note, PFilterByKey/PNearestNoteInKey/PDegree and the util name functions are evaluated on the property's complete finite domain (all named scales x 12 tonics x notes 0..127 x degrees -64..64) plus random user scales, and compared inside Coq (vm_compute) with the model; an independent pitch-class-set oracle judges every implementation result and supplies the failing input. Further theorems (C13_progression_aligned, C13_filter/snap/degree/rest_progression) cover the tonal patterns when the KEY is itself a pattern: every step consumes one note and one key, rests included, so output i is in / nearest in / the degree of key i; C13_session_frame/_reconfigure say that the definition of a key is the last one given to that key, whatever other keys exist (a scale's name is not part of the model). The check runs sessions - one process each - in which several keys that agree in name, tonic, octave size or scale object but differ in semitones are built, re-configured and queried in varying order, every key again after all others were built and queried, and the tonal patterns run over PSequence-s of those keys under melodies with rests; every result is judged against the key's own semitones (step i against key i) and compared with the model evaluated on the definition the model derives from the session. Held objects (Tonal/Held.v: a store of Scale objects, the registry Scale.dict, Key objects referring to Scale objects; theorems C13_held_retune, C13_held_scale_object_retuned, C13_held_frame, C13_held_history_only, C13_held_nextn_current, C13_held_positions, C13_held_filter/snap/degree, C13_named_scale, C13_copies): further sessions keep Key objects and tonal-pattern objects alive and re-tune the keys IN PLACE (key.tonic =, key.scale =, scale.semitones = / re-ordered in place, scale.octave_size =) between the nextn() calls of the same pattern object and between queries that ask the same notes and degrees again; user scales with octave sizes 5..24 are reached through their registered NAME (Key(t, name), Key(note, name), Key('note name'), Key(t, Scale.byname(name)), an event's key string) and scales / keys are copied (Scale.copy(), copy.copy, copy.deepcopy, constructor); every answer is judged by the oracle against the key as it is at that moment.",
+ "note": "Trusted: Coq kernel + VM; gen_tables.py; the Python harness; that Python int //, % are floor division (Z.div/Z.modulo). Modelled not verified: nothing float; Key built from names uses Scale.byname/note_name_to_midi_note (covered by the correspondence only for built-in names). nearest_note is compared by distance and membership, so a different tie-break is not an alarm. Compared with the model only, not judged by the oracle: Key.semitones, the number of values a tonal pattern yields when one stream ends first. PSequence(keys, r) yielding keys*r is taken from its documentation. Object identity is modelled (which Scale object a key refers to), but in-place operations are generated only on Scale objects that are private to the session's keys (never on the library's global scales, on scales reachable by name, or list re-ordering on objects in a copy relation - Scale.copy() shares the semitone list with its original). Which of two scales registered under the same name Scale.byname returns is modelled (the first) but only probed with names that are unique in the session. Recorded finding (known_findings.d/C13.json): Scale.copy() drops the octave size.",
 }
 HEADER = """From Isobar Require Import Base.Prelude Tonal.Key Tonal.Progression Generated.Tables.
 From Coq Require Import String.
@@ -184,17 +186,37 @@ def run_keys(run, keys, exhaustive_domain):
             "coq_term": terms[i][:2000]}, found_input=False)
 
 
-# ---- sessions: several keys in one process; key progressions -----------------------------------------
+# ---- sessions: several keys in one process; key progressions; held objects re-tuned in place ----------
 # One session = one interpreter.  Scales and keys are built in varying order - unnamed (every Scale([...])
 # without a name is called "unnamed scale"), under a shared user name, under the name of a built-in scale,
 # built-in ones - on few tonics and octave sizes, so that many keys of a session agree in everything a
 # lazy cache might be keyed by (name, tonic, octave size, scale object) and differ in their semitones.
-# Every key is queried after others were built and queried; some are re-configured (tonic / scale
-# assigned) afterwards.  The tonal patterns are run with a constant key and with a PSequence of keys (a
-# progression) under melodies with rests: output i is judged against key i.
+# Every key is queried after others were built and queried; keys and Scale OBJECTS are re-tuned in place
+# (key.tonic = / key.scale = / scale.semitones = / the list re-ordered in place / scale.octave_size =)
+# between queries and between the nextn() calls of pattern objects that live on; user scales are reached
+# through the NAME they are registered under (Key(t, name), Key("D name"), Scale.byname, an event's key
+# string); scales and keys are copied.  The tonal patterns are run with a constant key and with a PSequence
+# of keys (a progression) under melodies with rests: output i is judged against key i AS IT IS when step i runs.
 PATTERN_FNS = ("pfilter", "psnap", "pdegree", "chain")
 PATTERN_SITE = {"pfilter": "PFilterByKey", "psnap": "PNearestNoteInKey", "pdegree": "PDegree",
                 "chain": "PNearestNoteInKey(PFilterByKey)"}
+TFN = {"pfilter": "FFilter", "psnap": "FSnap", "pdegree": "FDegree"}
+NOTE_NAMES = ["C", "C#", "D", "Eb", "E", "F", "F#", "G", "Ab", "A", "Bb", "B"]
+CONFIG_OPS = ("scale", "scalecopy", "key", "keynamed", "keycopy", "retune", "rescale", "setsemis", "setosize")
+SESSION_HEADER = """From Isobar Require Import Tonal.Held.
+Fixpoint snap_obs_ok (obs : list hstep_obs) (rs : list (option Z)) : bool :=
+  match obs, rs with
+  | [], [] => true
+  | (k, x, _) :: obs', r :: rs' =>
+      match x, r with
+      | None, None => true
+      | Some x, Some r => key_contains k r && (Z.abs (r - x) =? Z.abs (nearest_note k x - x))
+      | _, _ => false
+      end && snap_obs_ok obs' rs'
+  | _, _ => false
+  end.
+Definition M := XMut.
+"""
 
 
 def rand_scale(rng, o):
@@ -307,42 +329,312 @@ def gen_session(rng, info):
         direct_query(slot, rng.choice(["nearest", "get"]))
     for _ in range(2):
         pattern_query()
-    return {"ops": ops, "notes": notes, "degrees": degrees}
+    return {"ops": ops, "notes": notes, "degrees": degrees, "kind": "several-keys"}
+
+
+def gen_held_session(rng, info, si):
+    """objects that are HELD and re-tuned in place while in use; user scales reached through their names; copies.
+    A few Key objects on private Scale objects (two keys may share one); pattern objects that live on and are asked for a
+    few values at a time; between any two uses a key gets another tonic / another Scale object, or its Scale object gets
+    other semitones (assigned, or the list re-ordered in place) or another octave size.  The same notes and degrees are
+    asked again after every change (a value remembered from before the change would be the wrong answer now)."""
+    builtin = [b for b in info["scales"] if b[2] == 12]
+    o_main = 12 if rng.random() < 0.5 else rng.randint(5, 24)
+    osizes = [o_main] if rng.random() < 0.6 else [o_main, rng.randint(5, 24)]
+    tonics = rng.sample(range(0, 12), 3)
+    base = rng.randint(0, 100)
+    notes = list(range(base, base + max(osizes))) + [rng.randint(-60, 200) for _ in range(4)]
+    rng.shuffle(notes)
+    degrees = sorted(rng.sample(range(-20, 21), 10))
+    ops, slots, sids, pids = [], [], [], []
+    private, registered, frozen = [], [], set()       # scale ids: re-tunable in place / reachable by name / not to be re-ordered in place
+    cur_scale, strings = {}, set()                     # slot -> scale id it refers to now; slots that hold a key STRING
+    sem = {}                                            # scale id -> (semis, osize) as they are now
+
+    def new_scale(kind=None, o=None):
+        sid = len(sids)
+        o = o or rng.choice(osizes)
+        kind = kind or rng.choice(["unnamed", "unnamed", "registered"])
+        semis = rand_scale(rng, o)
+        if kind == "registered":
+            ops.append({"op": "scale", "id": sid, "how": "registered", "name": "verifU%dx%d" % (si, sid), "semis": semis, "osize": o})
+            registered.append(sid)
+        else:
+            ops.append({"op": "scale", "id": sid, "how": "unnamed", "semis": semis, "osize": o})
+            private.append(sid)
+        sem[sid] = (semis, o)
+        sids.append(sid)
+        return sid
+
+    def new_key(sid=None):
+        slot = len(slots)
+        sid = sid if sid is not None else (rng.choice(private) if private and rng.random() < 0.3 else new_scale("unnamed"))
+        ops.append({"op": "key", "slot": slot, "scale": sid, "tonic": rng.choice(tonics)})
+        slots.append(slot)
+        cur_scale[slot] = sid
+        return slot
+
+    def named_key():
+        """a key whose scale is reached through its NAME"""
+        slot = len(slots)
+        if registered and rng.random() < 0.8:
+            sid = rng.choice(registered)
+            name = "verifU%dx%d" % (si, sid)
+        else:
+            b = rng.choice([x for x in builtin if " " not in x[0]])
+            sid, name = None, b[0]
+            sem[("name", name)] = (list(b[1]), b[2])
+        how = rng.choice(["Key(t,name)", "Key(note,name)", "Key('note name')", "Key(t,byname)", "string"])
+        ops.append({"op": "keynamed", "slot": slot, "name": name, "tonic": rng.choice(tonics), "how": how})
+        slots.append(slot)
+        cur_scale[slot] = ("name", name) if sid is None else sid
+        if how == "string":
+            strings.add(slot)
+        return slot
+
+    def copies():
+        u = rng.random()
+        if u < 0.55 and sids:
+            src = rng.choice(sids)
+            sid = len(sids)
+            how = rng.choice(["copy()", "copy()", "copy.copy", "copy.deepcopy", "ctor"])
+            ops.append({"op": "scalecopy", "id": sid, "src": src, "how": how})
+            sids.append(sid)
+            sem[sid] = sem[src]
+            frozen.update([sid, src])
+            new_key(sid)
+        else:
+            objs = [sl for sl in slots if sl not in strings]
+            if not objs:
+                return
+            src = rng.choice(objs)
+            slot = len(slots)
+            how = rng.choice(["copy.copy", "copy.deepcopy", "ctor"])
+            op = {"op": "keycopy", "slot": slot, "src": src, "how": how}
+            if how == "copy.deepcopy":
+                op["id"] = len(sids)
+                sids.append(op["id"])
+                cur_scale[slot] = op["id"]
+                sem[op["id"]] = sem[cur_scale[src]]          # a deep copy: a Scale object of its own, whatever the original refers to
+                private.append(op["id"])
+            else:
+                cur_scale[slot] = cur_scale[src]
+            ops.append(op)
+            slots.append(slot)
+        query(slots[-1])
+
+    def query(slot, fn=None):
+        fns = ["contains", "nearest", "get", "getitem", "event", "scaleget"]
+        fn = fn or rng.choice(fns)
+        if slot in strings and fn == "semitones":
+            fn = "get"
+        if fn == "semitones":
+            ops.append({"op": "q", "slot": slot, "fn": fn})
+        else:
+            ops.append({"op": "q", "slot": slot, "fn": fn, "xs": degrees if fn in ("get", "getitem", "event", "scaleget") else notes})
+
+    def retunable():
+        return [sl for sl in slots if sl not in strings]
+
+    def retune():
+        """one in-place re-configuration of a held object; returns the slots whose definition changed"""
+        objs = retunable()
+        slot = rng.choice(objs)
+        u = rng.random()
+        sid = cur_scale[slot]
+        tunable = isinstance(sid, int) and sid in private
+        if u < 0.35 or (u >= 0.6 and not tunable):
+            ops.append({"op": "retune", "slot": slot, "tonic": rng.choice([t for t in range(0, 12) if True])})
+            return [slot]
+        if u < 0.6:
+            new = rng.choice(private) if private and rng.random() < 0.4 else new_scale("unnamed")
+            ops.append({"op": "rescale", "slot": slot, "scale": new})
+            cur_scale[slot] = new
+            return [slot]
+        semis, o = sem[sid]
+        if u < 0.95:
+            v = rng.random()
+            op = {"op": "setsemis", "scale": sid}
+            if rng.random() < 0.5:
+                op["through"] = slot                       # key.scale.semitones = ...
+            if v < 0.45 or len(semis) < 2 or sid in frozen:
+                op["how"] = "assign"
+                new = rand_scale(rng, o)
+            elif v < 0.7:
+                op["how"] = "inplace"
+                new = rand_scale(rng, o)
+            else:
+                i, j = rng.sample(range(len(semis)), 2)
+                op["how"], op["swap"] = "swap", [i, j]
+                new = list(semis)
+                new[i], new[j] = new[j], new[i]
+            op["semis"] = new
+            sem[sid] = (new, o)
+            ops.append(op)
+        else:
+            new_o = rng.randint(max(semis) + 1, max(semis) + 8)
+            ops.append({"op": "setosize", "scale": sid, "osize": new_o})
+            sem[sid] = (semis, new_o)
+        return [sl for sl in slots if cur_scale.get(sl) == sid]
+
+    def open_pattern():
+        pid = len(pids)
+        fn = rng.choice(["pfilter", "pfilter", "psnap", "pdegree"])
+        length = rng.randint(8, 18)
+        pool = degrees if fn == "pdegree" else notes
+        mel = rand_melody(rng, pool[:6], length)           # few distinct notes: every one recurs after a re-tuning
+        as_scale = fn == "pdegree" and rng.random() < 0.3
+        if rng.random() < 0.6:
+            spec = {"const": rng.choice(slots)}
+        else:
+            seq = [rng.choice(slots) for _ in range(rng.randint(2, 3))]     # the same object several times per round
+            spec = {"seq": seq, "repeats": length // len(seq) + 1 if rng.random() < 0.85 else max(1, length // len(seq) - 1)}
+        if as_scale:
+            spec["as_scale"] = True
+        ops.append({"op": "popen", "pid": pid, "fn": fn, "xs": mel, "keys": spec})
+        pids.append(pid)
+        return pid
+
+    # --- the cast
+    for _ in range(rng.randint(1, 2)):
+        new_scale("registered", rng.choice([o for o in osizes if o != 12] or [rng.randint(5, 24)]) if rng.random() < 0.8 else None)
+    for _ in range(rng.randint(2, 3)):
+        new_key()
+    for _ in range(rng.randint(1, 3)):
+        query(named_key())
+    for sl in list(slots):
+        query(sl, rng.choice(["get", "contains"]))
+    if rng.random() < 0.7:
+        copies()
+    for _ in range(rng.randint(1, 3)):
+        open_pattern()
+    # --- use, re-tune, use again
+    for _round in range(rng.randint(3, 6)):
+        for pid in pids:
+            if rng.random() < 0.8:
+                ops.append({"op": "pnext", "pid": pid, "n": rng.randint(1, 4)})
+        changed = retune()
+        for sl in changed[:2]:
+            query(sl, rng.choice(["get", "contains", "nearest", "getitem", "event"]))      # the notes / degrees asked before
+        if rng.random() < 0.3:
+            query(rng.choice(slots))
+        if rng.random() < 0.2:
+            copies()
+        if rng.random() < 0.15:
+            query(named_key())
+        if rng.random() < 0.15 and len(pids) < 4:
+            open_pattern()
+    for pid in pids:
+        ops.append({"op": "pnext", "pid": pid, "n": rng.randint(2, 20)})
+    for sl in slots:
+        query(sl, rng.choice(["get", "contains", "nearest"]))
+    return {"ops": ops, "notes": notes, "degrees": degrees, "kind": "held-objects"}
 
 
 class SessionState:
-    """what the harness knows about a session while walking its operations (independent of the model)"""
-    def __init__(self):
-        self.scales, self.keys, self.coq_ops = {}, {}, []
+    """what the harness knows about a session while walking its operations (independent of the model): which Scale
+    object every Key object refers to now, what every object holds now, where every live pattern stands"""
+    def __init__(self, builtin=()):
+        self.builtin = {b[0]: (i, b[1], b[2]) for i, b in enumerate(builtin)}     # name -> (object number, semis, osize)
+        self.scales, self.keys, self.pats, self.coq_ops = {}, {}, {}, []
+        self.names = {}
+
+    def oid(self, sid):
+        sc = self.scales[sid]
+        return sc["oid"]
+
+    def named(self, name):
+        """the scale id registered under a name (user names generated by the harness are unique; library names)"""
+        if name in self.names:
+            return self.names[name]
+        i, semis, osize = self.builtin[name]
+        sid = "lib:" + name
+        self.scales.setdefault(sid, {"semis": semis, "osize": osize, "name": name, "how": "builtin", "oid": i, "copy_lost_octave": False})
+        return sid
 
     def apply(self, op):
         k = op["op"]
+        X = self.coq_ops.append
         if k == "scale":
-            self.scales[op["id"]] = {"semis": op["semis"], "osize": op["osize"],
-                                     "name": op.get("name"), "how": op["how"]}
+            how = op["how"]
+            oid = self.builtin[op["name"]][0] if how == "builtin" else 100 + op["id"]
+            self.scales[op["id"]] = {"semis": list(op["semis"]), "osize": op["osize"], "name": op.get("name"), "how": how,
+                                     "oid": oid, "copy_lost_octave": False}
+            if how == "registered":
+                self.names[op["name"]] = op["id"]
+            if how != "builtin":
+                X("M (HScale %d %s (mkScale %s %s))" % (oid, slit(op.get("name") or "unnamed scale"), zlist(op["semis"]), zlit(op["osize"])))
+        elif k == "scalecopy":
+            src = self.scales[op["src"]]
+            self.scales[op["id"]] = dict(src, semis=list(src["semis"]), how="copy:" + op["how"], oid=100 + op["id"],
+                                         copy_lost_octave=src["copy_lost_octave"] or (op["how"] == "copy()" and src["osize"] != 12))
+            X("M (HScaleCopy %d %d)" % (100 + op["id"], src["oid"]))
         elif k == "key":
-            sc = self.scales[op["scale"]]
-            self.keys[op["slot"]] = {"semis": sc["semis"], "osize": sc["osize"], "tonic": op["tonic"], "judged": True}
-            self.coq_ops.append("SBuild %d (mkKey %s (mkScale %s %s))" % (op["slot"], zlit(op["tonic"]), zlist(sc["semis"]), zlit(sc["osize"])))
+            self.keys[op["slot"]] = {"tonic": op["tonic"], "sid": op["scale"]}
+            X("M (HKey %d %s %d)" % (op["slot"], zlit(op["tonic"]), self.oid(op["scale"])))
+        elif k == "keynamed":
+            self.keys[op["slot"]] = {"tonic": op["tonic"], "sid": self.named(op["name"]), "string": op["how"] == "string"}
+            X("M (HKeyNamed %d %s %s)" % (op["slot"], zlit(op["tonic"]), slit(op["name"])))
+        elif k == "keycopy":
+            src = self.keys[op["src"]]
+            if op["how"] == "copy.deepcopy":
+                sc = self.scales[src["sid"]]
+                self.scales[op["id"]] = dict(sc, semis=list(sc["semis"]), how="deepcopy", oid=100 + op["id"])
+                self.keys[op["slot"]] = {"tonic": src["tonic"], "sid": op["id"]}
+                X("M (HKeyDeep %d %d %d)" % (op["slot"], op["src"], 100 + op["id"]))
+            else:
+                self.keys[op["slot"]] = {"tonic": src["tonic"], "sid": src["sid"]}
+                X("M (HKeyCopy %d %d)" % (op["slot"], op["src"]))
         elif k == "retune":
-            # a key re-configured after construction: the property text speaks about "every key", not about
-            # assigning to its attributes, so from here on this key is compared with the model only
-            self.keys[op["slot"]] = dict(self.keys[op["slot"]], tonic=op["tonic"], judged=False)
-            self.coq_ops.append("SRetune %d %s" % (op["slot"], zlit(op["tonic"])))
+            self.keys[op["slot"]] = dict(self.keys[op["slot"]], tonic=op["tonic"])
+            X("M (HTonic %d %s)" % (op["slot"], zlit(op["tonic"])))
         elif k == "rescale":
-            sc = self.scales[op["scale"]]
-            self.keys[op["slot"]] = dict(self.keys[op["slot"]], semis=sc["semis"], osize=sc["osize"], judged=False)
-            self.coq_ops.append("SRescale %d (mkScale %s %s)" % (op["slot"], zlist(sc["semis"]), zlit(sc["osize"])))
+            self.keys[op["slot"]] = dict(self.keys[op["slot"]], sid=op["scale"])
+            X("M (HRescale %d %d)" % (op["slot"], self.oid(op["scale"])))
+        elif k == "setsemis":
+            self.scales[op["scale"]]["semis"] = list(op["semis"])
+            X("M (HSemis %d %s)" % (self.oid(op["scale"]), zlist(op["semis"])))
+        elif k == "setosize":
+            self.scales[op["scale"]]["osize"] = op["osize"]
+            X("M (HOsize %d %s)" % (self.oid(op["scale"]), zlit(op["osize"])))
+        elif k == "popen":
+            spec = op["keys"]
+            ref = (lambda sl: ("scale", self.keys[sl]["sid"])) if spec.get("as_scale") else (lambda sl: ("key", sl))
+            refs = None if "const" in spec else [ref(sl) for sl in spec["seq"]] * spec["repeats"]
+            self.pats[op["pid"]] = {"fn": op["fn"], "xs": op["xs"], "const": ref(spec["const"]) if "const" in spec else None,
+                                    "refs": refs, "pos": 0}
+            cref = lambda r: "OScale %d" % self.oid(r[1]) if r[0] == "scale" else "OKey %d" % r[1]
+            kr = "(RConst (%s))" % cref(ref(spec["const"])) if "const" in spec else "(RSeq %s)" % lst([cref(r) for r in refs])
+            X("XOpen %d (mkHP %s %s %s)" % (op["pid"], TFN[op["fn"]], olist(op["xs"]), kr))
+        elif k == "pnext":
+            X("XNext %d %d" % (op["pid"], op["n"]))
+
+    def advance(self, op, r):
+        if op["op"] == "pnext" and isinstance(r, list):
+            self.pats[op["pid"]]["pos"] += len(r)
+
+    def ref_def(self, ref):
+        if ref[0] == "scale":
+            sc = self.scales[ref[1]]
+            return {"semis": sc["semis"], "osize": sc["osize"], "tonic": 0, "judged": True, "copy_lost_octave": sc["copy_lost_octave"]}
+        return self.kdef(ref[1])
+
+    def kdef(self, slot):
+        """the definition the key in `slot` has NOW"""
+        k = self.keys[slot]
+        sc = self.scales[k["sid"]]
+        return {"semis": sc["semis"], "osize": sc["osize"], "tonic": k["tonic"], "judged": True,
+                "copy_lost_octave": sc["copy_lost_octave"]}
 
     def key_at(self, spec, i):
         """definition of the key in force at step i of a pattern query (None: the key pattern has ended)"""
         if "const" in spec:
-            d = self.keys[spec["const"]]
+            d = self.kdef(spec["const"])
         else:
             seq = spec["seq"]
             if i >= len(seq) * spec["repeats"]:
                 return None
-            d = self.keys[seq[i % len(seq)]]
+            d = self.kdef(seq[i % len(seq)])
         return dict(d, tonic=0) if spec.get("as_scale") else d
 
 
@@ -366,9 +658,56 @@ def judge_nearest(inkey, x, y, who):
     return None
 
 
-def oracle_query(st, op, r):
-    """independent judgement of one query of a session: list of (kind, input, detail)."""
-    fn, bad = op["fn"], []
+def judge_step(fn, kd, i, x, y):
+    """one step of PFilterByKey / PNearestNoteInKey / PDegree against the definition kd the key has at that step"""
+    inkey = inkey_fn(kd)
+    if fn == "pfilter":
+        if y is not None and (y != x or not inkey(y)):
+            return [("filter-lets-through", (i, x), "step %d: PFilterByKey passed %r for input %r, key of that step %r" % (i, y, x, kd))]
+        if y is None and x is not None and inkey(x):
+            return [("filter-drops-in-key", (i, x), "step %d: PFilterByKey dropped %r, which is in the key of that step %r" % (i, x, kd))]
+    elif fn == "psnap":
+        if x is None:
+            if y is not None:
+                return [("rest", (i, x), "step %d: PNearestNoteInKey turned a rest into %r" % (i, y))]
+        else:
+            e = judge_nearest(inkey, x, y, "step %d: PNearestNoteInKey" % i)
+            if e:
+                return [("snap-" + e[0].replace("nearest-", ""), (i, x), e[2] + ", key of that step %r" % (kd,))]
+    elif fn == "pdegree":
+        if x is None:
+            if y is not None:
+                return [("rest", (i, x), "step %d: PDegree turned a rest into %r" % (i, y))]
+        else:
+            n = len(kd["semis"])
+            want = kd["tonic"] + kd["semis"][x % n] + kd["osize"] * (x // n)
+            if y != want:
+                return [("degree-formula", (i, x), "step %d: PDegree(%d) = %r, formula gives %d for the key of that step %r" % (i, x, y, want, kd))]
+    return []
+
+
+def oracle_query(st, op, r, lost=None):
+    """independent judgement of one query (or one nextn call of a live pattern) of a session: list of (kind, input, detail).
+    Every key is judged by what it is NOW: its present tonic and the present semitones / octave size of the Scale object
+    it presently refers to.  `lost`: treat copies made by Scale.copy() as if they had octave size 12 (used only to tell
+    whether a failure is the recorded finding about Scale.copy)."""
+    def fix(kd):
+        if lost and kd is not None and kd.get("copy_lost_octave"):
+            return dict(kd, osize=12)
+        return kd
+    bad = []
+    if op["op"] == "pnext":
+        if not opt_ints(r):
+            return bad
+        pt = st.pats[op["pid"]]
+        for i, y in enumerate(r):
+            g = pt["pos"] + i
+            if g >= len(pt["xs"]) or (pt["refs"] is not None and g >= len(pt["refs"])):
+                break
+            kd = fix(st.ref_def(pt["const"] if pt["refs"] is None else pt["refs"][g]))
+            bad += judge_step(pt["fn"], kd, g, pt["xs"][g], y)
+        return bad
+    fn = op["fn"]
     if fn in PATTERN_FNS:
         if not opt_ints(r):
             return bad
@@ -378,7 +717,7 @@ def oracle_query(st, op, r):
                 break
             x = mel[i]
             if fn == "chain":
-                ka, kb = st.key_at(op["keys"], i), st.key_at(op["keys2"], i)
+                ka, kb = fix(st.key_at(op["keys"], i)), fix(st.key_at(op["keys2"], i))
                 if ka is None or kb is None or not (ka["judged"] and kb["judged"]):
                     continue
                 ina, inb = inkey_fn(ka), inkey_fn(kb)
@@ -392,54 +731,37 @@ def oracle_query(st, op, r):
                     if e:
                         bad.append(("snap-" + e[0].replace("nearest-", ""), (i, x), e[2]))
                 continue
-            kd = st.key_at(op["keys"], i)
+            kd = fix(st.key_at(op["keys"], i))
             if kd is None or not kd["judged"]:
                 continue
-            inkey = inkey_fn(kd)
-            if fn == "pfilter":
-                if y is not None and (y != x or not inkey(y)):
-                    bad.append(("filter-lets-through", (i, x), "step %d: PFilterByKey passed %r for input %r, key of that step %r" % (i, y, x, kd)))
-                if y is None and x is not None and inkey(x):
-                    bad.append(("filter-drops-in-key", (i, x), "step %d: PFilterByKey dropped %r, which is in the key of that step %r" % (i, x, kd)))
-            elif fn == "psnap":
-                if x is None:
-                    if y is not None:
-                        bad.append(("rest", (i, x), "step %d: PNearestNoteInKey turned a rest into %r" % (i, y)))
-                else:
-                    e = judge_nearest(inkey, x, y, "step %d: PNearestNoteInKey" % i)
-                    if e:
-                        bad.append(("snap-" + e[0].replace("nearest-", ""), (i, x), e[2] + ", key of that step %r" % (kd,)))
-            elif fn == "pdegree":
-                if x is None:
-                    if y is not None:
-                        bad.append(("rest", (i, x), "step %d: PDegree turned a rest into %r" % (i, y)))
-                else:
-                    n = len(kd["semis"])
-                    want = kd["tonic"] + kd["semis"][x % n] + kd["osize"] * (x // n)
-                    if y != want:
-                        bad.append(("degree-formula", (i, x), "step %d: PDegree(%d) = %r, formula gives %d for the key of that step %r" % (i, x, y, want, kd)))
+            bad += judge_step(fn, kd, i, x, y)
         return bad
-    kd = st.keys[op["slot"]]
+    kd = fix(st.kdef(op["slot"]))
     if not kd["judged"] or not isinstance(r, list):
         return bad
+    if fn == "scaleget":
+        kd = dict(kd, tonic=0)
     inkey = inkey_fn(kd)
     xs = op.get("xs", [])
-    if fn in ("get", "getitem"):
+    if fn in ("get", "getitem", "event", "scaleget"):
+        who = {"get": "Key.get", "getitem": "Key.__getitem__", "event": "Event(degree, key).note", "scaleget": "Scale.get"}[fn]
         n = len(kd["semis"])
         for d, g in zip(xs, r):
             want = kd["tonic"] + kd["semis"][d % n] + kd["osize"] * (d // n)
             if g != want:
-                bad.append(("degree-formula", d, "Key.%s(%d) = %r, formula gives %d" % (fn, d, g, want)))
+                bad.append(("degree-formula", d, "%s(%d) = %r, formula gives %d for the key as it is now %r" % (who, d, g, want, kd)))
             elif not inkey(g):
-                bad.append(("degree-not-in-key", d, "Key.%s(%d) = %r is not in the key" % (fn, d, g)))
-        gs = [(d, g) for d, g in zip(xs, r) if type(g) is int]
-        for (d1, g1), (d2, g2) in zip(gs, gs[1:]):
-            if d1 < d2 and not g1 < g2:
-                bad.append(("degree-not-increasing", d2, "Key.get(%d)=%d >= Key.get(%d)=%d" % (d1, g1, d2, g2)))
+                bad.append(("degree-not-in-key", d, "%s(%d) = %r is not in the key" % (who, d, g)))
+        if all(a < b for a, b in zip(kd["semis"], kd["semis"][1:])) and 0 <= kd["semis"][0] and kd["semis"][-1] < kd["osize"]:
+            # an ascending scale inside one octave (not one shuffled in place)
+            gs = [(d, g) for d, g in zip(xs, r) if type(g) is int]
+            for (d1, g1), (d2, g2) in zip(gs, gs[1:]):
+                if d1 < d2 and not g1 < g2:
+                    bad.append(("degree-not-increasing", d2, "%s(%d)=%d >= %s(%d)=%d" % (who, d1, g1, who, d2, g2)))
     elif fn == "contains":
         for x, c in zip(xs, r):
             if c is not inkey(x):
-                bad.append(("membership", x, "(%d in key) = %r, pitch-class set says %r" % (x, c, inkey(x))))
+                bad.append(("membership", x, "(%d in key) = %r, pitch-class set of the key as it is now %r says %r" % (x, c, kd, inkey(x))))
     elif fn == "nearest":
         for x, y in zip(xs, r):
             e = judge_nearest(inkey, x, y, "nearest_note")
@@ -451,13 +773,21 @@ def oracle_query(st, op, r):
 def ksrc_term(spec, sname, j):
     wrap = (lambda t: "(untonic %s)" % t) if spec.get("as_scale") else (lambda t: t)
     if "const" in spec:
-        return "(KConst %s)" % wrap("(sk %s %d %d)" % (sname, j, spec["const"]))
-    return "(KSeq (rep %d %s))" % (spec["repeats"], lst([wrap("(sk %s %d %d)" % (sname, j, sl)) for sl in spec["seq"]]))
+        return "(KConst %s)" % wrap("(xkey %s %d %d)" % (sname, j, spec["const"]))
+    return "(KSeq (rep %d %s))" % (spec["repeats"], lst([wrap("(xkey %s %d %d)" % (sname, j, sl)) for sl in spec["seq"]]))
 
 
 def query_term(op, r, sname, j):
-    """Coq boolean: the model, on the definition the key(s) have after the first j configuration operations of
-    the session, agrees with what the implementation returned (None: the result has not even the right shape)"""
+    """Coq boolean: the model, on the definition the key(s) have after the first j operations of the session (Tonal/Held.v:
+    the store of Key and Scale objects the MODEL derives from the session's operations), agrees with what the implementation
+    returned (None: the result has not even the right shape).  For a nextn call of a live pattern j is the number of that
+    operation and the model's pattern object stands where the model's earlier calls left it."""
+    if op["op"] == "pnext":
+        if not opt_ints(r):
+            return None
+        if op["_fn"] == "psnap":
+            return "snap_obs_ok (xout %s %d) %s" % (sname, j, olist(r))
+        return "list_eqb oz (map obs_out (xout %s %d)) %s" % (sname, j, olist(r))
     fn = op["fn"]
     if fn in PATTERN_FNS:
         if not opt_ints(r):
@@ -471,11 +801,13 @@ def query_term(op, r, sname, j):
             return "snap_prog_ok %d %s %s %s" % (op["n"], mel, ks, olist(r))
         return "snap_prog_ok %d (tonal_nextn filter_step %d (mkT %s %s)) %s %s" % (
             op["n"], op["n"], mel, ks, ksrc_term(op["keys2"], sname, j), olist(r))
-    k = "(sk %s %d %d)" % (sname, j, op["slot"])
+    k = "(xkey %s %d %d)" % (sname, j, op["slot"])
     if fn == "semitones":
         return "list_eqb Z.eqb (key_semitones %s) %s" % (k, zlist(r)) if all_ints(r) else None
     xs = zlist(op["xs"])
-    if fn in ("get", "getitem"):
+    if fn == "scaleget":
+        k = "(untonic %s)" % k
+    if fn in ("get", "getitem", "event", "scaleget"):
         return "list_eqb Z.eqb (map (key_get %s) %s) %s" % (k, xs, zlist(r)) if all_ints(r) else None
     if fn == "contains":
         ok = isinstance(r, list) and all(type(c) is bool for c in r)
@@ -487,15 +819,21 @@ def query_term(op, r, sname, j):
 
 def session_script(ops, upto):
     """a python script that replays the history of a session up to (and including) operation `upto`"""
-    L = ["import isobar as iso", "from isobar import Scale, Key, PSequence, PFilterByKey, PNearestNoteInKey, PDegree"]
+    L = ["import copy, isobar as iso", "from isobar import Scale, Key, PSequence, PFilterByKey, PNearestNoteInKey, PDegree",
+         "from isobar.timelines.event import Event, EventDefaults"]
+    strings = set()
+
+    def kx(sl):
+        return "Key(k%d)" % sl if sl in strings else "k%d" % sl
 
     def src(spec):
-        f = (lambda sl: "k%d.scale" % sl) if spec.get("as_scale") else (lambda sl: "k%d" % sl)
+        f = (lambda sl: "%s.scale" % kx(sl)) if spec.get("as_scale") else kx
         if "const" in spec:
             return f(spec["const"])
         return "PSequence([%s], %d)" % (", ".join(f(sl) for sl in spec["seq"]), spec["repeats"])
     for i, op in enumerate(ops[:upto + 1]):
         k = op["op"]
+        mark = "   # <- the failing call" if i == upto else ""
         if k == "scale":
             if op["how"] == "builtin":
                 L.append("s%d = Scale.byname(%r)" % (op["id"], op["name"]))
@@ -503,12 +841,45 @@ def session_script(ops, upto):
                 L.append("s%d = Scale(%r%s)" % (op["id"], op["semis"], "" if op["osize"] == 12 else ", octave_size=%d" % op["osize"]))
             else:
                 L.append("s%d = Scale(%r, %r, octave_size=%d)" % (op["id"], op["semis"], op["name"], op["osize"]))
+        elif k == "scalecopy":
+            e = {"copy()": "s%d.copy()", "copy.copy": "copy.copy(s%d)", "copy.deepcopy": "copy.deepcopy(s%d)",
+                 "ctor": "Scale(list(s%d.semitones), s%d.name, octave_size=s%d.octave_size)"}[op["how"]]
+            L.append("s%d = %s" % (op["id"], e.replace("%d", str(op["src"]))))
         elif k == "key":
             L.append("k%d = Key(%d, s%d)" % (op["slot"], op["tonic"], op["scale"]))
+        elif k == "keynamed":
+            nn, name, how = NOTE_NAMES[op["tonic"] % 12], op["name"], op["how"]
+            e = {"Key(t,name)": "Key(%d, %r)" % (op["tonic"], name), "Key(note,name)": "Key(%r, %r)" % (nn, name),
+                 "Key('note name')": "Key(%r)" % ("%s %s" % (nn, name)), "Key(t,byname)": "Key(%d, Scale.byname(%r))" % (op["tonic"], name),
+                 "string": "%r   # a key given as a string, as in an event dictionary" % ("%s %s" % (nn, name))}[how]
+            if how == "string":
+                strings.add(op["slot"])
+            L.append("k%d = %s" % (op["slot"], e))
+        elif k == "keycopy":
+            e = {"copy.copy": "copy.copy(k%d)", "copy.deepcopy": "copy.deepcopy(k%d)", "ctor": "Key(k%d.tonic, k%d.scale)"}[op["how"]]
+            L.append("k%d = %s" % (op["slot"], e.replace("%d", str(op["src"]))))
+            if op["how"] == "copy.deepcopy":
+                L.append("s%d = k%d.scale" % (op["id"], op["slot"]))
         elif k == "retune":
             L.append("k%d.tonic = %d" % (op["slot"], op["tonic"]))
         elif k == "rescale":
             L.append("k%d.scale = s%d" % (op["slot"], op["scale"]))
+        elif k == "setsemis":
+            obj = "k%d.scale" % op["through"] if op.get("through") is not None else "s%d" % op["scale"]
+            if op["how"] == "assign":
+                L.append("%s.semitones = %r" % (obj, op["semis"]))
+            elif op["how"] == "inplace":
+                L.append("%s.semitones[:] = %r" % (obj, op["semis"]))
+            else:
+                i_, j_ = op["swap"]
+                L.append("l = %s.semitones; l[%d], l[%d] = l[%d], l[%d]   # as Scale.change() does" % (obj, i_, j_, j_, i_))
+        elif k == "setosize":
+            L.append("s%d.octave_size = %d" % (op["scale"], op["osize"]))
+        elif k == "popen":
+            cls = {"pfilter": "PFilterByKey", "psnap": "PNearestNoteInKey", "pdegree": "PDegree"}[op["fn"]]
+            L.append("p%d = %s(PSequence(%r, 1), %s)" % (op["pid"], cls, op["xs"], src(op["keys"])))
+        elif k == "pnext":
+            L.append(("print(p%d.nextn(%d))" if i == upto else "_ = p%d.nextn(%d)") % (op["pid"], op["n"]) + mark)
         else:
             fn = op["fn"]
             if fn in PATTERN_FNS:
@@ -520,36 +891,75 @@ def session_script(ops, upto):
                 else:
                     e = "%s.nextn(%d)" % (e, op["n"])
             elif fn == "semitones":
-                e = "k%d.semitones" % op["slot"]
+                e = "%s.semitones" % kx(op["slot"])
+            elif fn == "event":
+                e = "[Event({'degree': x, 'key': k%d, 'octave': 0, 'transpose': 0}, EventDefaults()).note for x in %r]" % (op["slot"], op["xs"])
             else:
-                call = {"get": "k%d.get(x)", "getitem": "k%d[x]", "contains": "(x in k%d)", "nearest": "k%d.nearest_note(x)"}[fn] % op["slot"]
+                call = {"get": "%s.get(x)", "getitem": "%s[x]", "contains": "(x in %s)", "nearest": "%s.nearest_note(x)",
+                        "scaleget": "%s.scale.get(x)"}[fn] % kx(op["slot"])
                 e = "[%s for x in %r]" % (call, op["xs"])
-            L.append(("print(%s)   # <- the failing query" if i == upto else "_ = %s") % e)
+            L.append(("print(%s)" if i == upto else "_ = %s") % e + mark)
     return "\n".join(L)
 
 
-def bad_at(ops, res, oi):
-    """oracle failures of the query at index oi of an executed history"""
-    st = SessionState()
-    for o in ops[:oi]:
+def walk(ops, res, oi, builtin, lost=None):
+    """oracle failures of the call at index oi of an executed history, and the state before it"""
+    st = SessionState(builtin)
+    for o, r in zip(ops[:oi], res[:oi]):
         st.apply(o)
-    return oracle_query(st, ops[oi], res[oi]), st
+        st.advance(o, r)
+    return oracle_query(st, ops[oi], res[oi], lost), st
 
 
-def shrink_history(run, ops, oi, kind):
-    """a shorter history ending in the same query that still fails the oracle in the same way: first without
-    the earlier queries and without the keys the query does not use, then only without the earlier queries"""
+def bad_at(ops, res, oi, builtin=()):
+    return walk(ops, res, oi, builtin)
+
+
+def shrink_history(run, ops, oi, kind, builtin):
+    """a shorter history ending in the same call that still fails the oracle in the same way: without the other queries and
+    patterns, first also without the objects the call does not depend on, then with all objects"""
     target = ops[oi]
-    conf = [o for o in ops[:oi] if o["op"] != "q"]
-    used = set()
-    for spec in (target.get("keys"), target.get("keys2")):
+    pid = target.get("pid") if target["op"] == "pnext" else None
+    mine = lambda o: o["op"] in ("popen", "pnext") and o["pid"] == pid
+    conf = [o for o in ops[:oi] if o["op"] in CONFIG_OPS or mine(o)]
+    used_k, used_s, used_n = set(), set(), set()
+    specs = [target.get("keys"), target.get("keys2")] + [o["keys"] for o in conf if o["op"] == "popen"]
+    for spec in specs:
         if spec:
-            used.update([spec["const"]] if "const" in spec else spec["seq"])
+            used_k.update([spec["const"]] if "const" in spec else spec["seq"])
     if "slot" in target:
-        used.add(target["slot"])
-    kept = [o for o in conf if o["op"] == "scale" or o["slot"] in used]
-    sids = {o["scale"] for o in kept if o["op"] in ("key", "rescale")}
-    kept = [o for o in kept if o["op"] != "scale" or o["id"] in sids]
+        used_k.add(target["slot"])
+    while True:        # what the used objects were built from
+        n0 = (len(used_k), len(used_s), len(used_n))
+        for o in conf:
+            k = o["op"]
+            if k in ("key", "rescale") and o["slot"] in used_k:
+                used_s.add(o["scale"])
+            elif k == "keynamed" and o["slot"] in used_k:
+                used_n.add(o["name"])
+            elif k == "keycopy" and o["slot"] in used_k:
+                used_k.add(o["src"])
+                if "id" in o:
+                    used_s.add(o["id"])
+            elif k == "keycopy" and o.get("id") in used_s:
+                used_k.add(o["slot"]); used_k.add(o["src"])
+            elif k == "scalecopy" and o["id"] in used_s:
+                used_s.add(o["src"])
+            elif k == "scale" and o.get("name") in used_n:
+                used_s.add(o["id"])
+        if (len(used_k), len(used_s), len(used_n)) == n0:
+            break
+
+    def needed(o):
+        k = o["op"]
+        if k in ("scale", "scalecopy"):
+            return o["id"] in used_s
+        if k in ("setsemis", "setosize"):
+            return o["scale"] in used_s
+        if k in ("popen", "pnext"):
+            return True
+        return o["slot"] in used_k
+    kept = [o for o in conf if needed(o)]
     for cand in (kept + [target], conf + [target]):
         if len(cand) >= oi + 1:
             continue
@@ -558,113 +968,163 @@ def shrink_history(run, ops, oi, kind):
         except Exception:
             continue
         if isinstance(res, list) and len(res) == len(cand):
-            bad, _ = bad_at(cand, res, len(cand) - 1)
+            bad, _ = walk(cand, res, len(cand) - 1, builtin)
             hit = [b for b in bad if b[0] == kind]
             if hit:
                 return cand, res[-1], hit[0]
     return None
 
 
-def judge_sessions(run, sessions, outs):
+def judge_sessions(run, sessions, outs, builtin):
     """oracle + model comparison of executed sessions.  Returns the number of oracle failures."""
-    header = HEADER
     terms, meta, n_bad = [], [], 0
+    groups = []                                                  # (Coq definition of the session, first term, one past the last)
     reported = run.__dict__.setdefault("_c13_reported", set())   # one shrunk replay per (kind, site) and run
     for si, (sess, res) in enumerate(zip(sessions, outs)):
         sname = "sess%d" % si
-        st = SessionState()
+        first_term = len(terms)
+        st = SessionState(builtin)
         ops = sess["ops"]
-        per_query = []
+        retuned = False
         for oi, (op, r) in enumerate(zip(ops, res)):
-            if op["op"] != "q":
+            if op["op"] not in ("q", "pnext"):
                 st.apply(op)
-                if r is not None:       # building / re-configuring a key raised
+                if op["op"] in ("retune", "rescale", "setsemis", "setosize"):
+                    retuned = True
+                    run.dist("session.retuned-in-place.%s" % (op["op"] if op["op"] != "setsemis" else "setsemis." + op["how"]))
+                elif op["op"] in ("scalecopy", "keycopy"):
+                    run.dist("session.%s.%s" % (op["op"], op["how"]))
+                elif op["op"] == "keynamed":
+                    sc = st.scales[st.keys[op["slot"]]["sid"]]
+                    run.dist("session.key-by-name.%s.%s" % (op["how"], "library" if sc["how"] == "builtin" else "user-octave-%s" % ("12" if sc["osize"] == 12 else "other")))
+                if r is not None:       # building / re-configuring an object raised
                     terms.append("false"); meta.append((si, oi, op, r))
                 continue
-            j = len(st.coq_ops)
-            fn = op["fn"]
-            site = PATTERN_SITE.get(fn, "Key")
-            n_in = len(op.get("xs", [])) or 1
-            run.count(n_in)
+            if op["op"] == "pnext":
+                j = len(st.coq_ops)
+                pt = st.pats[op["pid"]]
+                op = dict(op, _fn=pt["fn"])
+                fn, site = "pnext." + pt["fn"], PATTERN_SITE[pt["fn"]]
+                n_in = len(r) if isinstance(r, list) else 1
+                if pt["pos"] > 0 and retuned:
+                    run.dist("session.live-pattern.asked-again-after-a-retuning")
+            else:
+                j = len(st.coq_ops)
+                fn = op["fn"]
+                site = PATTERN_SITE.get(fn, "Key")
+                n_in = len(op.get("xs", [])) or 1
+            run.count(max(1, n_in))
             bad = oracle_query(st, op, r)
-            run.cov["oracle_evaluations"] += n_in
+            run.cov["oracle_evaluations"] += max(1, n_in)
             seen = set()
             for kind, x, detail in bad:
                 if kind in seen:
                     continue
                 seen.add(kind)
                 n_bad += 1
-                if (kind, site) in reported:
+                sig = {"kind": kind, "site": site, "history": "session"}
+                if not [b for b in oracle_query(st, op, r, lost=True) if b[0] == kind]:
+                    # every failure of this kind disappears when the copies made by Scale.copy() are read with octave size 12
+                    sig["via"] = "Scale.copy-octave-size"
+                if (kind, site, sig.get("via")) in reported:
                     continue
-                reported.add((kind, site))
+                reported.add((kind, site, sig.get("via")))
                 h_ops, h_oi, h_r = ops[:oi + 1], oi, r
-                small = shrink_history(run, ops, oi, kind)
+                small = shrink_history(run, ops, oi, kind, builtin)
                 if small:
                     h_ops, h_r, (_, x, detail) = small[0], small[1], small[2]
                     h_oi = len(h_ops) - 1
-                defs = SessionState()
+                defs = SessionState(builtin)
                 for o in h_ops[:h_oi]:
                     defs.apply(o)
-                run.violation({"kind": kind, "site": site, "history": "session"}, {
-                    "case": {"session": {"ops": h_ops}, "op_index": h_oi, "query": op, "input": x,
-                             "keys_at_that_moment": {"k%d" % sl: d for sl, d in sorted(defs.keys.items())},
-                             "scales": {"s%d" % i: d for i, d in sorted(defs.scales.items())},
-                             "history_shrunk": bool(small), "original_history_ops": oi + 1},
-                    "observed": detail, "returned": h_r, "oracle": "pitch-class-set oracle on the key's own semitones (step i against key i)",
+                run.violation(sig, {
+                    "case": {"session": {"ops": h_ops}, "op_index": h_oi, "query": ops[oi], "input": x,
+                             "keys_at_that_moment": {"k%d" % sl: defs.kdef(sl) for sl in sorted(defs.keys)},
+                             "history_shrunk": bool(small), "original_history_ops": oi + 1, "session_kind": sess.get("kind")},
+                    "observed": detail, "returned": h_r,
+                    "oracle": "pitch-class-set oracle on the key as it is at that moment: its present tonic, the present semitones and "
+                              "octave size of the Scale object it refers to (step i against key i)",
                     "python": session_script(h_ops, h_oi),
                     "all_failures_of_this_kind_in_this_query": sum(1 for b in bad if b[0] == kind)})
             t = query_term(op, r, sname, j)
+            if ops[oi]["op"] == "pnext":
+                st.apply(ops[oi])
+                st.advance(ops[oi], r)
             terms.append(t if t is not None else "false")
-            meta.append((si, oi, op, r))
-            per_query.append((oi, bool(bad)))
+            meta.append((si, oi, ops[oi], r))
             run.dist("session.q.%s" % fn)
             if fn in PATTERN_FNS:
                 run.dist("session.keysrc.%s" % ("const" if "const" in op["keys"] else "progression"))
                 if "seq" in op["keys"] and any(x is None for x in op["xs"]):
                     run.dist("session.progression-with-rests")
-        header += "Definition %s : list sop := %s.\n" % (sname, lst(st.coq_ops))
+        groups.append(("Definition %s : list xop := %s.\n" % (sname, lst(st.coq_ops)), first_term, len(terms)))
         names = [sc["name"] if sc["how"] != "unnamed" else "unnamed scale" for sc in st.scales.values()]
         clash = len(names) - len(set(names))
         run.dist("session.same-name-scales.%s" % ("0" if clash == 0 else "1-2" if clash < 3 else "3+"))
+        run.dist("session.kind.%s" % sess.get("kind"))
         run.nontrivial("session %d %r" % (si, [o for o in ops if o["op"] != "q"]))
         run.sample({"session": si, "keys": len(st.keys), "ops": len(ops), "first_ops": ops[:4]}, limit=2)
-    failing = run.coq_failing(header, terms, chunk=150)
+    # every Coq file gets the definitions of a few sessions and their terms (about a twelfth of all terms each)
+    per_file = max(120, -(-len(terms) // 12))
+    files, cur = [], None
+    for d, a, b in groups:
+        if cur is None or cur[2] - cur[1] >= per_file:
+            cur = [HEADER + SESSION_HEADER, a, a]
+            files.append(cur)
+        cur[0] += d
+        cur[2] = b
+
+    def one(fi):
+        hdr, a, b = files[fi]
+        if a == b:
+            return []
+        src = hdr + "\nDefinition results : list bool := [\n" + ";\n".join(terms[a:b]) + "\n].\nEval vm_compute in failing results.\n"
+        return [a + k for k in parse_nat_list(run.coqc_text("sessions%d" % fi, src))]
+    failing = []
+    with ThreadPoolExecutor(max_workers=12) as ex:
+        for part in ex.map(one, range(len(files))):
+            failing.extend(part)
     run.cov["traces_validated_against_impl"] += len(terms) - len(failing)
     for i in failing:
         si, oi, op, r = meta[i]
         ops = sessions[si]["ops"]
-        st = SessionState()
-        for o in ops[:oi]:
-            st.apply(o)
-        if op["op"] == "q" and oracle_query(st, op, r):
+        if op["op"] in ("q", "pnext") and walk(ops, outs[si], oi, builtin)[0]:
             continue          # already reported with the concrete input
-        site = PATTERN_SITE.get(op.get("fn"), "Key") if op["op"] == "q" else "Key"
+        st = walk(ops, outs[si], oi, builtin)[1] if op["op"] in ("q", "pnext") else None
+        site = "Key"
+        if op["op"] == "q":
+            site = PATTERN_SITE.get(op.get("fn"), "Key")
+        elif op["op"] == "pnext":
+            site = PATTERN_SITE[st.pats[op["pid"]]["fn"]]
         run.violation({"kind": "correspondence", "site": site, "history": "session"}, {
-            "broken": "correspondence model/implementation on %s within a session of several keys (theorems of Props/C13.v no longer speak about this code)" % site,
+            "broken": "correspondence model/implementation on %s within a session of several keys / held objects (theorems of Props/C13.v no longer speak about this code)" % site,
             "case": {"session": {"ops": ops[:oi + 1]}, "op_index": oi, "query": op},
-            "observed": r, "python": session_script(ops, oi) if op["op"] == "q" else None,
+            "observed": r, "python": session_script(ops, oi) if op["op"] in ("q", "pnext") else None,
             "coq_term": terms[i][:2000]}, found_input=False)
     return n_bad
 
 
-def run_sessions(run, info, n_sessions):
+def run_sessions(run, info, n_sessions, n_held):
     import time
     t0 = time.time()
     sessions = [gen_session(run.rng, info) for _ in range(n_sessions)]
+    sessions += [gen_held_session(run.rng, info, i) for i in range(n_held)]
+    n_all = len(sessions)
     # one process per session: the driver forks a child of the freshly imported interpreter for each
-    shards = [list(range(i, n_sessions, 12)) for i in range(12) if i < n_sessions]
+    shards = [list(range(i, n_all, 12)) for i in range(12) if i < n_all]
     outs = run.impl_parallel("c13_impl", [{"sessions": [sessions[i] for i in sh]} for sh in shards])
-    res = [None] * n_sessions
+    res = [None] * n_all
     for sh, out in zip(shards, outs):
         for i, r in zip(sh, out["sessions"]):
             if not isinstance(r, list):
                 raise CheckError("implementation driver failed on a session: %r" % (r,))
             res[i] = r
     t1 = time.time()
-    for i in range(0, n_sessions, 96):      # the definitions of a batch of sessions go into the header of its Coq files
-        judge_sessions(run, sessions[i:i + 96], res[i:i + 96])
+    for i in range(0, n_all, 240):
+        judge_sessions(run, sessions[i:i + 240], res[i:i + 240], info["scales"])
     run.cov["sessions_wall_s"] = {"implementation": round(t1 - t0, 1), "oracle+model": round(time.time() - t1, 1)}
     run.cov["sessions"] = n_sessions
+    run.cov["sessions_held_objects"] = n_held
 
 
 def check(run):
@@ -694,7 +1154,7 @@ def check(run):
         run_keys(run, ukeys[i:i + 600], False)
     # 2b. sessions: several keys per process (shared names / tonics / scale objects), re-configuration,
     #     tonal patterns over key progressions with rests
-    run_sessions(run, info, 60 if run.tier == "quick" else 1000)
+    run_sessions(run, info, 60 if run.tier == "quick" else 1000, 48 if run.tier == "quick" else 800)
     # 3. note names: whole MIDI range and every spelling
     numbers = list(range(-2, 130))
     sp = []
@@ -737,7 +1197,8 @@ def check(run):
     run.cov["rule"] = ("one case = one key (scale x tonic) evaluated on its whole note/degree range by Key.get, __contains__, "
                        "nearest_note, PFilterByKey, PNearestNoteInKey, PDegree; distinct by (scale, tonic); non-trivial = scale has >= 1 semitone. "
                        "nearest_note compared by membership and distance, not identity.  A session (one process: 4-9 keys sharing names/tonics/"
-                       "scale objects, interleaved queries, re-configuration, pattern queries over key progressions with rests) counts as one case, "
+                       "scale objects, interleaved queries, re-configuration, pattern queries over key progressions with rests; or: 3-8 held Key "
+                       "objects and 1-4 live pattern objects, re-tuned in place between nextn() calls, user scales reached by name, copies) counts as one case, "
                        "distinct by its sequence of build/re-configure operations.")
 
 
@@ -745,9 +1206,10 @@ def replay_session(run, doc):
     case = doc["case"]
     ops, oi = case["session"]["ops"], case["op_index"]
     res = run.impl("c13_impl", {"sessions": [{"ops": ops}]})["sessions"][0]
+    info = run.impl("c13_impl", {"list": True})
     bad = []
-    if isinstance(res, list) and len(res) == len(ops) and ops[oi]["op"] == "q":
-        bad, _ = bad_at(ops, res, oi)
+    if isinstance(res, list) and len(res) == len(ops) and ops[oi]["op"] in ("q", "pnext"):
+        bad, _ = bad_at(ops, res, oi, info["scales"])
         print("replay: query %s returned %r" % (json.dumps(ops[oi]), res[oi]))
     for b in bad:
         print("REPLAY-FAILS:", b)
